@@ -93,6 +93,17 @@ def build_harness(variant, name):
         "h_rdwr": ["ref_g711.c"],
         "h_meta": ["h_chunks.c"],
     }.get(name, [])
+    if name == "h_cmd":
+        # the command list is taken from the tree's own public header every time
+        import re
+        txt = open(os.path.join(REPO, "include", "sndfile.h")).read()
+        cmds = re.findall(r"(SFC_[A-Z0-9_]+)\s*=\s*(0x[0-9A-Fa-f]+)", txt)
+        gen = os.path.join(hd, "sfc_list.h")
+        body = "static const struct { const char *name ; int id ; } sfc_list [] = {\n" + "".join('\t{ "%s", %s },\n' % c for c in cmds) + "\t{ NULL, 0 } } ;\n"
+        if not os.path.exists(gen) or open(gen).read() != body:
+            open(gen, "w").write(body)
+        cflags += ["-I", hd]
+        headers.append(gen)
     srcs = COMMON_SRC + extra + [name + ".c"]
     objs = []
     with Lock(os.path.join(BUILD, variant + ".hlock")):
